@@ -117,6 +117,10 @@ func runSQLite(r *vt.Run, t vt.TB, s sqSpec) {
 			return
 		}
 		if !present {
+			if none, err := db.SelectRowid(name, p); err != nil || none != nil {
+				r.Violation(t, s, "sqlite:no-columns-phantom", "table %s: SelectRowid(%d) without columns = %#v, %v; SQLite has no such row", name, p, none, err)
+				return
+			}
 			if got != nil {
 				r.Violation(t, s, "sqlite:phantom", "table %s: SelectRowid(%d) returns %s, SQLite has no such row", name, p, e1.ShowGot(got))
 				return
@@ -126,6 +130,18 @@ func runSQLite(r *vt.Run, t vt.TB, s sqSpec) {
 		if got == nil || !e1.SameRow(got, w) {
 			r.Violation(t, s, "sqlite:missing-or-wrong", "table %s (history %v): SelectRowid(%d) = %v, SQLite %s", name, s.DB.History, p, got, w)
 			return
+		}
+		// existence check: no columns asked for
+		if none, err := db.SelectRowid(name, p); err != nil || none == nil || len(none) != 0 {
+			r.Violation(t, s, "sqlite:no-columns", "table %s: SelectRowid(%d) without columns = %#v, %v; the row exists (a nil row means not found)", name, p, none, err)
+			return
+		}
+		if sch.RowidPK {
+			calls := 0
+			if err := db.PKSelect(name, sqlittle.Key{p}, func(sqlittle.Row) { calls++ }); err != nil || calls != 1 {
+				r.Violation(t, s, "sqlite:pk-no-columns", "table %s: PKSelect(%d) without columns: %d callbacks, %v; the row exists", name, p, calls, err)
+				return
+			}
 		}
 		if sch.RowidPK {
 			n := 0
